@@ -1,7 +1,8 @@
 (* C15 — the iterators of package itertools enumerate exactly the advertised objects, once each,
    in the documented order, and then report exhaustion for ever.
    This file contains only the property theorems of the lead's share (Product, Combinations,
-   CombinationsColex, RestrictedPrefixProduct), closed by [exact], and their assumptions.
+   CombinationsColex, RestrictedPrefixProduct, RestrictedPrefixPermutations), closed by [exact],
+   and their assumptions.
    The other iterators are in Props/C15_part2.v.
 
    Reading the statements: [drain next value fuel init = Some (l, e)] says that calling Next
@@ -12,7 +13,8 @@
    is "in the documented order" (and, the order being strict, "each once" — also stated as
    [NoDup l]); [In x l <-> F x] is "exactly the advertised family". *)
 From Coq Require Import List ZArith Arith Sorted.
-From Mamba Require Import Iter.Model Iter.Enum Iter.Lex Iter.Product Iter.ProductRP Iter.Comb Iter.Colex.
+From Mamba Require Import Iter.Model Iter.Enum Iter.Lex Iter.Product Iter.ProductRP Iter.Comb Iter.Colex
+  Iter.AlgX Iter.AlgXRun Iter.AlgXFilter.
 Import ListNotations.
 Open Scope Z_scope.
 
@@ -70,6 +72,28 @@ Theorem C15_restricted_prefix_product_is_filter : forall t ns,
 Proof. exact rpprod_is_filter_exact. Qed.
 Print Assumptions C15_restricted_prefix_product_is_filter.
 
+(* RestrictedPrefixPermutations(n, f) (Knuth's Algorithm X with the linked list of unused
+   elements and the undo array), for every n >= 0 and every predicate f (a function of the
+   prefix): the permutations of 0..n-1 all of whose non-empty prefixes are accepted, in
+   lexicographic order; the goto machine of one call of Next terminates within the fuel
+   4 * (number of prefixes of permutations) + 4 fixed by the model's constructor and never
+   indexes a, l or u out of range. *)
+Theorem C15_restricted_prefix_permutations : forall f n,
+  exists l e, drain (rpperm_next f) rpperm_value (S (length l)) (rpperm_init n) = Some (l, e) /\
+    (StronglySorted lex_lt l /\ NoDup l /\ (forall x, In x l <-> in_rpperm f n x) /\
+     exhausted (rpperm_next f) e).
+Proof. exact rpperm_enumerates_exact. Qed.
+Print Assumptions C15_restricted_prefix_permutations.
+
+(* ... and it agrees with filtering the enumeration of LexicographicPermutations(n). *)
+Theorem C15_restricted_prefix_permutations_is_filter : forall f n,
+  exists l e lp ep,
+    drain (rpperm_next f) rpperm_value (S (length l)) (rpperm_init n) = Some (l, e) /\
+    drain lexperm_next lexperm_value (S (length lp)) (lexperm_init n) = Some (lp, ep) /\
+    l = filter (allok f) lp /\ exhausted (rpperm_next f) e.
+Proof. exact rpperm_is_filter. Qed.
+Print Assumptions C15_restricted_prefix_permutations_is_filter.
+
 (* ------------------------------------------------------------------ non-vacuity *)
 
 Example C15_product_nonvacuous :
@@ -101,3 +125,11 @@ Example C15_restricted_prefix_product_nonvacuous :
      Some ([[0;1;0]; [0;1;2]; [1;0;1]; [1;0;2]], e)) /\
   filter (allok t) [[0;0;0]; [0;1;0]; [0;1;1]; [1;0;2]] = [[0;1;0]; [1;0;2]].
 Proof. cbv zeta. split; [eexists|]; vm_compute; reflexivity. Qed.
+
+(* "no two neighbours differ by one": deep backtracking; and the empty permutation for n = 0 *)
+Example C15_restricted_prefix_permutations_nonvacuous :
+  let f := fun a : list Z => match rev a with x :: y :: _ => negb (Z.abs (x - y) =? 1) | _ => true end in
+  (exists e, drain (rpperm_next f) rpperm_value 3 (rpperm_init 4) = Some ([[1;3;0;2]; [2;0;3;1]], e)) /\
+  (exists e, drain (rpperm_next f) rpperm_value 1 (rpperm_init 3) = Some ([], e)) /\
+  (exists e, drain (rpperm_next f) rpperm_value 2 (rpperm_init 0) = Some ([[]], e)).
+Proof. cbv zeta. repeat split; eexists; vm_compute; reflexivity. Qed.
